@@ -99,6 +99,39 @@ func c01(r *core.Run) {
 	globRule(r, "C01.GLOB", scope)
 	srcRule(r, "C01.SRC", scope, false)
 	sortDet(r, "C01.SORTDET", scope)
+	// "the directory the file lives in (for a fixed module/package identity)" and "processes": the package loader
+	// runs in the source file's own directory and with the hardened environment — not in the process's working
+	// directory or ambient environment, which change the package identity (testmod vs command-line-arguments) and
+	// with it names and IR. The environment rules are C15's, run under C01.
+	ex, un, as := r.Explain, r.Undecided, r.Assume
+	r.Under("C15.", "C01.ENV.", func() { c15(r) })
+	r.Explain, r.Undecided, r.Assume = ex+" (ENV) the loader configuration takes its environment from the hardening function (C15's rules, shared) and its working directory from the source file's location.", un, as
+	nDir := 0
+	for _, fn := range p.FuncsIn("pkg/diff") {
+		core.InstrsOf(fn, func(in ssa.Instruction) {
+			al, ok := in.(*ssa.Alloc)
+			if !ok || !core.IsNamed(al.Type(), "golang.org/x/tools/go/packages", "Config") {
+				return
+			}
+			nDir++
+			dv, has := core.StructLitField(al, "Dir")
+			okDir := false
+			if has && dv != nil {
+				for _, o := range core.Origins(dv) {
+					if c, isCall := o.(*ssa.Call); isCall && (core.CalleeName(&c.Call) == "path/filepath.Dir" || core.CalleeName(&c.Call) == "path/filepath.Abs") {
+						okDir = true
+					}
+					if ex, isEx := o.(*ssa.Extract); isEx {
+						if c, isCall := ex.Tuple.(*ssa.Call); isCall && core.CalleeName(&c.Call) == "path/filepath.Abs" {
+							okDir = true
+						}
+					}
+				}
+			}
+			r.Check(okDir, "C01.ENV.DIR", core.FuncName(fn)+"#packages.Config.Dir", al.Pos(), "the loader runs in the directory of the source file", "the loader configuration sets no Dir derived from the source file's location: `go list` runs in the process's working directory, so the same file yields testmod.* from inside its module and command-line-arguments.* from anywhere else — names, IR and fingerprints depend on where the tool is started")
+		})
+	}
+	r.Floor("C01.ENV.DIR", "loader configurations in pkg/diff", nDir, 1)
 }
 
 func c10(r *core.Run) {
